@@ -352,7 +352,9 @@ Qed.
 Lemma on_retract_response_PK s w ids s' : TS (core_of s) -> on_retract_response s w ids = Ok s' -> PK s' = PK s.
 Proof.
   unfold on_retract_response. intros Hs H. destruct (retract_response_states _ w ids []) as [c' groups] eqn:E.
-  unfold PK. rewrite (send_redirected_core _ _ _ H). cbn. eapply retract_response_states_pframe; [exact Hs | exact E].
+  apply bind_ok in H. destruct H as (s2 & H & H2).
+  assert (E2 : PK s' = PK s2) by (destruct (retract_wakes _ _ _ _); inversion H2; subst s'; reflexivity).
+  rewrite E2. unfold PK. rewrite (send_redirected_core _ _ _ H). cbn. eapply retract_response_states_pframe; [exact Hs | exact E].
 Qed.
 
 
